@@ -206,8 +206,15 @@ func (borderRadius *borderRadiusTracker) compactRules(rules []css_ast.Rule, keyR
 		rules[corner.ruleIndex] = css_ast.Rule{}
 	}
 
-	// Insert the combined declaration where the last rule was
-	rules[borderRadius.corners[3].ruleIndex] = css_ast.Rule{Loc: minLoc, Data: &css_ast.RDeclaration{
+	// Insert the combined declaration where the last of these rules was (see
+	// the comment in "boxTracker.compactRules" for why)
+	lastIndex := borderRadius.corners[0].ruleIndex
+	for _, corner := range borderRadius.corners[1:] {
+		if corner.ruleIndex > lastIndex {
+			lastIndex = corner.ruleIndex
+		}
+	}
+	rules[lastIndex] = css_ast.Rule{Loc: minLoc, Data: &css_ast.RDeclaration{
 		Key:       css_ast.DBorderRadius,
 		KeyText:   "border-radius",
 		Value:     tokens,
